@@ -304,7 +304,11 @@ def check_getitem_contract(ctx, rep, rule):
     rep.check(ok and contained, rule, fq, "a transition is returned only when it covers the whole set", "containment test of the set lookup changed")
     rep.check(partial, rule, fq, "a transition that covers only part of the set makes the answer None", "a transition sharing some but not all symbols with the queried set is skipped and the lookup falls back to "
               "Else: callers (short-circuit pass, append_after) then treat explicitly handled symbols as if they took the Else transition")
-    rep.check(isinstance(last, ast.Return) and ast.unparse(last) == "return self[DFTransition.Else]" and last is not loop, rule, fq, "Else is the answer only after every explicit transition was found disjoint", "Else fallback changed")
+    shape_ok = len(arm.body) == 3 and isinstance(arm.body[0], ast.Assign) and ast.unparse(arm.body[0]) == "data = frozenset(data)" and arm.body[1] is loop
+    rep.check(isinstance(last, ast.Return) and ast.unparse(last) == "return self[DFTransition.Else]" and last is not loop and shape_ok, rule, fq,
+              "Else is the answer exactly when every explicit transition was found disjoint (for every symbol kind, End included)",
+              "the Else fallback of the set lookup is no longer unconditional after the scan: some symbol sets (e.g. those containing End) get no answer, so walks that follow fall-through edges "
+              "(the compile-time cycle check, the short-circuit pass) lose the trail there")
 
 
 _run_h = run
